@@ -178,7 +178,7 @@ const maxUAtoms = 12
 
 // Decide computes the admissible outcomes of req on table under the given router.
 func Decide(table TableSpec, req ReqSpec, router string) Verdict {
-	if !CleanPath(req.Path) {
+	if !DecidablePath(req.Path) {
 		return Verdict{Unspecified: true}
 	}
 	hasBody := req.Body != ""
